@@ -3,6 +3,7 @@ package analyzer
 import (
 	"fmt"
 	"regexp"
+	"sort"
 	"strings"
 
 	"github.com/ludo-technologies/pyscn/domain"
@@ -112,7 +113,15 @@ func (a *CBOAnalyzer) AnalyzeClasses(ast *parser.Node, filePath string) ([]*CBOR
 	var results []*CBOResult
 
 	// Second pass: analyze coupling for each class
-	for _, classNode := range classes {
+	// (in sorted name order, since map iteration order is random)
+	classNames := make([]string, 0, len(classes))
+	for className := range classes {
+		classNames = append(classNames, className)
+	}
+	sort.Strings(classNames)
+
+	for _, className := range classNames {
+		classNode := classes[className]
 		result, err := a.analyzeClass(classNode, filePath, classes)
 		if err != nil {
 			// Log warning but continue with other classes
@@ -759,12 +768,13 @@ func (a *CBOAnalyzer) matchesPattern(str, pattern string) bool {
 	return str == pattern
 }
 
-// mapToSlice converts map keys to slice
+// mapToSlice converts map keys to a sorted slice
 func (a *CBOAnalyzer) mapToSlice(m map[string]bool) []string {
 	result := make([]string, 0, len(m))
 	for key := range m {
 		result = append(result, key)
 	}
+	sort.Strings(result)
 	return result
 }
 
@@ -829,7 +839,16 @@ func CalculateFilesCBO(asts map[string]*parser.Node, options *CBOOptions) (map[s
 	results := make(map[string][]*CBOResult)
 	analyzer := NewCBOAnalyzer(options)
 
-	for filePath, ast := range asts {
+	// The analyzer accumulates imported names across files, so process the
+	// files in a stable order (map iteration order is random)
+	filePaths := make([]string, 0, len(asts))
+	for filePath := range asts {
+		filePaths = append(filePaths, filePath)
+	}
+	sort.Strings(filePaths)
+
+	for _, filePath := range filePaths {
+		ast := asts[filePath]
 		fileResults, err := analyzer.AnalyzeClasses(ast, filePath)
 		if err != nil {
 			return nil, fmt.Errorf("failed to analyze file %s: %w", filePath, err)
